@@ -461,6 +461,8 @@ fn simplify_raw<'l>(arg: &mut Argument<'l>) -> Result<bool, SimplifyError>
 				{
 					let Argument::Subtract{lhs, rhs} = mem::replace(value.as_mut(), Argument::Constant(Number::Integer(0))) else {unreachable!()};
 					*arg = Argument::Subtract{lhs: rhs, rhs: lhs};
+					// the swapped node is new: bring it into neutral form like every other result
+					neutralize_raw(arg)?;
 					true
 				},
 				&Argument::Constant(Number::Integer(value)) =>
